@@ -46,7 +46,7 @@ def observe (d : StageDrv) : String :=
   let cmps := d.names.filterMap (fun n => (k.cmp n).map (fun c => esc n ++ "=" ++ fmtCmp c))
   let tmps := d.names.filterMap (fun n => (k.cmpTmp n).map (fun _ => esc n))
   let fin := d.targets.filterMap (fun t => (fmtOptBody k (k.final t)).map (fun b => esc t ++ "=" ++ (if b == "" then "-" else b)))
-  let lck := d.targets.filterMap (fun t => (fmtOptBody k (k.finalLck t)).map (fun b => esc t ++ "=" ++ (if b == "" then "-" else b)))
+  let lck : List String := []
   let lg := sortStrings (k.log.map (fun r => s!"{esc r.name},{esc r.renamed},{esc r.hash},{r.size}"))
   " ".intercalate [section_ "part" (per k.part), section_ "full" (per k.full), section_ "wait" (per k.wait),
     section_ "cmp" cmps, section_ "cmplck" tmps, section_ "final" fin, section_ "finallck" lck, section_ "log" lg]
@@ -99,7 +99,9 @@ def stageOp (d : StageDrv) (ws : List String) : Option (StageDrv × List Prim ×
       | some i =>
         let p0 := [Prim.writeIno i beg.toNat data now]
         let s1 := Stage.run s p0
-        some (d, p0 ++ recordEffects s1 n m beg fin now, "ok")
+        -- Receive fails the part when the reader delivered fewer/more bytes than announced
+        if (data.length : Int) ≠ fin - beg then some (d, p0, "err-short")
+        else some (d, p0 ++ recordEffects s1 n m beg fin now, "ok")
     | _, _, _, _, _ => none
   | ["ropen", h, n, renamed, prev, size, hash, beg, fin] =>
     match parseNat? h, parseMeta renamed prev size hash, parseInt? beg, parseInt? fin with
@@ -116,7 +118,8 @@ def stageOp (d : StageDrv) (ws : List String) : Option (StageDrv × List Prim ×
       | some (_, n, m, beg, fin), some i =>
         let p0 := [Prim.writeIno i beg.toNat data now, Prim.handleClose h]
         let s1 := Stage.run s p0
-        some ({ d with pend := d.pend.filter (·.1 != h) }, p0 ++ recordEffects s1 n m beg fin now, "ok")
+        if (data.length : Int) ≠ fin - beg then some ({ d with pend := d.pend.filter (·.1 != h) }, p0, "err-short")
+        else some ({ d with pend := d.pend.filter (·.1 != h) }, p0 ++ recordEffects s1 n m beg fin now, "ok")
       | _, _ => some (d, [], "err-handle")
     | _, _, _ => none
   | ["process", n, now] =>
